@@ -108,6 +108,12 @@ async def run_schema(s, cases, schema_name):
     return out
 
 
+def _canon(resp):
+    # engine-authored texts may quote the repr of a user object: addresses differ from run to run
+    import re
+    return re.sub(r"0x[0-9a-fA-F]+", "0x", json.dumps(resp, sort_keys=True, default=repr))
+
+
 def main(tier_, replay=None):
     from . import engine_env
     rep = common.Report("C14")
@@ -151,7 +157,7 @@ def main(tier_, replay=None):
                     viol.append((s, c, r, "%d responses for %d events" % (len(r["responses"]), len(c["events"]))))
                     continue
                 for i, (resp, d) in enumerate(zip(r["responses"], r["direct"])):
-                    if json.dumps(resp, sort_keys=True, default=repr) != json.dumps(d, sort_keys=True, default=repr):
+                    if _canon(resp) != _canon(d):
                         viol.append((s, c, r, "response #%d differs from executing the request against event #%d" % (i, i)))
                         break
                 sob = "(SObsStream %s %d)" % (coq_list(["(%s, %s)" % (coq_string(k), execgen.model_value(v))
